@@ -106,7 +106,7 @@ func c17Config(tp *simkit.Tape) c17Cfg {
 func groupOf(keys []string, md map[string][]string) string {
 	var parts []string
 	for _, k := range keys {
-		parts = append(parts, strings.ToLower(k)+"="+strings.Join(md[strings.ToLower(k)], ","))
+		parts = append(parts, fmt.Sprintf("%s=%q", strings.ToLower(k), md[strings.ToLower(k)]))
 	}
 	sort.Strings(parts)
 	return strings.Join(parts, ";")
@@ -285,7 +285,7 @@ func runC17(r *simkit.Run) {
 						deep := gen.DeepItems(payload)
 						md := map[string][]string{}
 						if len(cfg.Keys) > 0 {
-							md["tenant"] = [][]string{{"a"}, {"b"}, {"a", "b"}, nil}[tp.Draw(4)]
+							md["tenant"] = [][]string{{"a"}, {"b"}, {"a", "b"}, nil, {"b", "a"}, {"a,b"}, {""}}[tp.Weighted(3, 3, 2, 2, 1, 1, 1)]
 							if len(cfg.Keys) > 1 {
 								md["region"] = [][]string{{"eu"}, {"us"}, nil}[tp.Draw(3)]
 							}
